@@ -64,6 +64,12 @@ impl<'a> Prog<'a> {
         if self.bgv { a.pred + b.pred - self.level_bits(&a.ct) - ln - 4.0 - sz }
         else { a.pred.min(b.pred) - (lt + 2.0 * ln + 10.0 + sz) }
     }
+    /// extra key-switch noise when the special prime is smaller than a data prime: log2(ceil(q_max / P))
+    fn ks_ratio_bits(&self) -> f64 {
+        let kq = self.s.level_qs(self.s.ctx.key_parms_id());
+        let p_sp = *kq.last().unwrap() as f64; let qm = *kq[..kq.len() - 1].iter().max().unwrap_or(&1) as f64;
+        (qm / p_sp).log2().max(0.0)
+    }
     fn pred_mul_plain(&self, a: &Item) -> f64 {
         let ln = log2(self.n as f64); let lt = log2(self.t as f64);
         a.pred - (lt + ln + 3.0)
@@ -101,7 +107,7 @@ impl<'a> Prog<'a> {
                 Some((cls(if pre_ntt { "multiply_plain_nttplain" } else { "multiply_plain" }, a, None), Item { ct: ev.multiply_plain_new(&a.ct, &p), m: shadow_mul(&a.m, &pm, t), pred: self.pred_mul_plain(a) })) }
             12 => { if a.ct.size() != 3 || a.ct.is_ntt_form() != native_ntt { return None; }
                 let ln = log2(self.n as f64);
-                Some((cls("relinearize", a, None), Item { ct: ev.relinearize_new(&a.ct, &self.relin), m: a.m.clone(), pred: a.pred.min(self.level_bits(&a.ct) - log2(t as f64) - ln - 30.0) - 1.0 })) }
+                Some((cls("relinearize", a, None), Item { ct: ev.relinearize_new(&a.ct, &self.relin), m: a.m.clone(), pred: a.pred.min(self.level_bits(&a.ct) - log2(t as f64) - ln - 30.0 - self.ks_ratio_bits()) - 1.0 })) }
             13 => { if self.bgv { return None; }  // representation change (BFV): every later operation that accepts NTT form uses it
                 if a.ct.is_ntt_form() { Some((cls("from_ntt", a, None), Item { ct: ev.transform_from_ntt_new(&a.ct), m: a.m.clone(), pred: a.pred })) }
                 else { Some((cls("to_ntt", a, None), Item { ct: ev.transform_to_ntt_new(&a.ct), m: a.m.clone(), pred: a.pred })) } }
